@@ -99,6 +99,9 @@ Proof. unfold ProcessBlock. nb_auto. Qed.
 Lemma ensureConnections_nb fx : nb (ensureConnections fx).
 Proof. unfold ensureConnections. nb_auto. Qed.
 #[export] Hint Resolve ensureConnections_nb : nb.
+Lemma gap_best_nb fx pa : forall nodes i ai li ar asl best bd, onb (gap_best fx pa nodes i ai li ar asl best bd).
+Proof. induction nodes; intros; cbn [gap_best]; nb_auto. Qed.
+#[export] Hint Resolve gap_best_nb : nb.
 Lemma FindHead_nb fx r s : nb (FindHead fx r s).
 Proof. unfold FindHead. nb_auto. Qed.
 #[export] Hint Resolve FindHead_nb : nb.
